@@ -113,14 +113,31 @@ theorem C09_setter_keeps_links (h : Bool) (n : Node) (σ : St) (k : Nat) (v : Va
     (hout : OutSync n σ) : Inv h n (setIn n σ k v) ∧ OutSync n (setIn n σ k v) :=
   ⟨setIn_inv h n σ k v hinv, setIn_outSync n σ k v hout⟩
 
+/-- a macro with one single-use parameter -/
+def wRecv : Node := .mac [⟨.c 1, 0⟩] [.leaf 0 [.arg 0, .none, .none]] [.out 0 0] [0] []
+
+/-- an assignment to a macro input reaches EVERY channel down its chain of value links (the UI node's
+input, or the single consumer's input and, if that is a nested macro, its chain …) from ANY state — no
+invariant is assumed: it makes no difference what the receiving ends held before or whether the macro
+input already held `v` -/
+theorem C09_assignment_reaches_chain (n : Node) (σ : St) (k : Nat) (v : Val) : Holds v n (setIn n σ k v) k :=
+  setIn_holds n σ k v
+
+/-- in particular re-assigning the value the macro input already holds repairs a link that an update on
+its receiving end had broken -/
+theorem C09_reassign_repairs (n : Node) (σ : St) (k : Nat) :
+    Holds (σ.get .inp k) n (setIn n σ k (σ.get .inp k)) k :=
+  setIn_holds n σ k (σ.get .inp k)
+
+/-- the one-directional-link witness, continued: the child input was overwritten (`c7`), the macro input
+still holds `c1`; assigning `c1` again puts `c1` back on the child input -/
+example : ((setIn wRecv (setInAt wRecv (build wRecv) [0] 0 (.c 7)) 0 (.c 1)).sub 0).get .inp 0 = .c 1 := by decide
+
 /-- "whichever side is updated", read literally: also an assignment to a child-level input keeps
 every link -/
 def C09_links_sync_Statement : Prop :=
   ∀ (n : Node) (σ : St) (p : Path) (k : Nat) (v : Val), WF n → NoDupH n → Reach n σ →
     Inv false n (setInAt n σ p k v)
-
-/-- a macro with one single-use parameter -/
-def wRecv : Node := .mac [⟨.c 1, 0⟩] [.leaf 0 [.arg 0, .none, .none]] [.out 0 0] [0] []
 
 /-- the pinned behaviour: links are one-directional. After `m.c0.inputs.a = c7` the macro input still
 holds its old value `c1` -/
@@ -319,6 +336,8 @@ end PwVerif.C09
 #print axioms PwVerif.C09.C09_child_output_sync
 #print axioms PwVerif.C09.C09_links_read
 #print axioms PwVerif.C09.C09_setter_keeps_links
+#print axioms PwVerif.C09.C09_assignment_reaches_chain
+#print axioms PwVerif.C09.C09_reassign_repairs
 #print axioms PwVerif.C09.C09_links_sync_receiving_witness
 #print axioms PwVerif.C09.C09_links_sync_not_statement
 #print axioms PwVerif.C09.C09_dup_return_repaired
